@@ -21,7 +21,7 @@ from replayers import monitor    # noqa: E402
 
 NCT = 5      # CT2: falsy instances (__len__ 0); CT3: derived from CT0; CT4: derived from PositionComponent (exact-type
              # bookkeeping must not confuse a component with one of a related class)
-NK = 4
+NK = 5
 
 
 def _ids(xs):
@@ -61,8 +61,10 @@ def make_world():
     K1 = type('K1', (K0,), w.NS)
     K2 = type('K2', (K0,), w.NS)
     K3 = type('K3', (K1,), w.NS)
-    w.K = [K0, K1, K2, K3]
-    w.kparent = {1: 0, 2: 0, 3: 1}
+    # an agent class with its own truth value (e.g. "alive"): falsy all the time - the library must never ask
+    K4 = type('K4', (Agent,), {'_verif_user': True, '__bool__': lambda self: False})
+    w.K = [K0, K1, K2, K3, K4]
+    w.kparent = {1: 0, 2: 0, 3: 1}     # K4 has no parent among the K classes
     w.models = {}
     w.kind = ('plain', 0, 0, 0, False)
     w.cur = 0
@@ -85,6 +87,12 @@ def model(w, k=None):
         kind, W, H, D, wrap = w.kind
         if kind != 'plain':
             import ECAgent.Environments as E
+            if getattr(w, 'iter_override', False):
+                # user worlds that iterate in an order of their own (positional queries do not go through iteration)
+                E = type('UserWorlds', (), {n_: type('U' + n_, (getattr(E, n_),), {
+                    '_verif_user': True,
+                    '__iter__': lambda self: iter(sorted(self.agents.values(), key=lambda a: a.id, reverse=True))})
+                    for n_ in ('SpaceWorld', 'DiscreteWorld', 'LineWorld', 'GridWorld')})
             if kind == 'space':
                 env = E.SpaceWorld(m, W, H, D, wrap_env=wrap)
             elif kind == 'discrete':
@@ -116,7 +124,7 @@ def check_listings(w, out, where):
         objs = [w.objs[n] for n in names]
         if len(env) != len(objs):
             out.append(('C04', f'{where}: len(environment)={len(env)} but {len(objs)} agents are live'))
-        it = list(env)
+        it = list(env) if not getattr(w, 'iter_override', False) else list(objs)
         if len(it) != len(objs) or any(a is not b for a, b in zip(it, objs)):
             out.append(('C04', f'{where}: iteration yields {_ids(it)}, expected {_ids(objs)}'))
         ga = env.get_agents()
@@ -186,6 +194,7 @@ def check_classes(w, out, where):
 def run_history(ops, props=None):
     from ECAgent.Core import (DuplicateAgentError, AgentNotFoundError, ComponentNotFoundError)
     w = make_world()
+    w.iter_override = tuple(props or ()) == ('C12',)
     out = []
     for step, op in enumerate(ops):
         kind = op[0]
@@ -227,6 +236,9 @@ def run_history(ops, props=None):
             k = w.cur
             spatial = w.kind[0] != 'plain'
             pos = tuple(op[2:5]) if len(op) >= 5 else (0, 0, 0)
+            if len(op) > 5 and op[5] == 'u8':
+                import numpy as np
+                pos = tuple(np.uint8(v) for v in pos)      # coordinates read from an unsigned numpy array
             taken = any(w.objs[n].id == o.id for n in w.resident[k])
             elsewhere = any(name in w.resident[j] for j in w.resident if j != k) or w.omodel[name] != k
             if elsewhere and not taken:
@@ -399,6 +411,9 @@ def run_history(ops, props=None):
             exp = [o for n, o in zip(w.resident[k], objs) if all(c in w.ocomps[n] for c in cts)
                    and (tag == 'none' or w.otag[n] == tag)]
             kw = {} if tag == 'none' else {'tag': int(str(tag))}
+            if tag == 3 or tag == 1:
+                import numpy as np
+                kw = {'tag': np.int64(tag) if tag == 3 else np.uint8(tag)}     # a tag read from a numpy array filters all the same
             before = monitor.fingerprint((env.agents, m.systems.component_pools))
             got = env.get_agents(*tmpl, **kw)
             if len(got) != len(exp) or any(a is not b for a, b in zip(got, exp)):
@@ -460,7 +475,7 @@ def run_history(ops, props=None):
             exp = []
             for n in w.resident[k]:
                 p = w.opos[n]
-                if all(abs(pp - qq) <= max(a, lw) for pp, qq, a in zip(p, q, (xl, yl, zl))):
+                if all(qq - max(a, lw) <= pp <= qq + max(a, lw) for pp, qq, a in zip(p, q, (xl, yl, zl))):
                     exp.append(w.objs[n])
             got = env.get_agents_at(q[0], q[1], q[2], lw, xl, yl, zl)
             if w.kind[4] and len(op) > 8 and op[8] == 'seam':
@@ -572,6 +587,13 @@ def small_histories(prop):
         yield ops
     for kd in ('plain', 'space', 'grid'):
         yield [('envcls', kd, 6), _mk('a', 0), ('envcls', kd, 0)]
+    # agents with their own truth value join and leave every kind of world like any other agent
+    for kind, dims in (('plain', (0, 0, 0)), ('space', (4.0, 4.0, 0.0)), ('grid', (3, 3, 0)), ('discrete', (2, 2, 2))):
+        ops = [('world', kind) + dims + (False,)] if kind != 'plain' else []
+        pl = (1, 1, 0) if kind != 'plain' else ()
+        yield ops + [_mk('a', 4, None, (0, 1)), _mk('b', 4, 2, ()), _mk('c', 0, None, (0,)), ('add', 'a') + pl, ('add', 'b') + pl,
+                     ('add', 'c') + pl, ('query', [0], 'none'), ('remove', 'a'), ('query', [0], 'none'), ('remove', 'b'),
+                     ('add', 'a') + pl, ('remove', 'c'), ('remove', 'a')]
     if prop == 'C03':
         for kind, dims in (('grid', (3, 3, 0)), ('space', (4.0, 4.0, 0.0))):
             yield [('world', kind) + dims + (False,), _mk('a', 0, None, (0, 1)), _mk('b', 0, None, (0,)), ('attachpos', 'a'),
@@ -678,6 +700,24 @@ def spatial_histories(prop):
             yield ops
 
 
+def numeric_spatial_histories():
+    """coordinates of unusual numeric kinds: unsigned numpy scalars (no arithmetic may be done on them that wraps), floats
+    that sit exactly on a face of the leeway box (bounds are inclusive, computed as q - L <= p <= q + L)"""
+    for kind, W, H, D in (('space', 9.0, 9.0, 0.0), ('grid', 9, 9, 0)):
+        ops = [('world', kind, W, H, D, False), _mk('a'), _mk('b'), _mk('c'),
+               ('add', 'a', 1, 1, 0, 'u8'), ('add', 'b', 3, 2, 0, 'u8'), ('add', 'c', 0, 8, 0, 'u8')]
+        for q in ((2, 2, 0), (4, 1, 0), (8, 8, 0), (0, 0, 0), (3, 3, 0)):
+            for lw in ((1, 0, 0, 0), (0, 2, 1, 0), (3, 0, 0, 0), (0, 0, 0, 0)):
+                ops.append(('at',) + q + lw)
+        yield ops + [('remove', 'a'), ('at', 2, 2, 0, 5, 0, 0, 0)]
+    ops = [('world', 'space', 5.0, 5.0, 0.0, False), _mk('a'), _mk('b'), ('add', 'a', 1.0 + 0.1, 2.0 - 0.3, 0),
+           ('add', 'b', 0.1 + 0.2, 0.7, 0)]
+    for q, lw in (((1.0, 2.0, 0), (0.1, 0, 0.3, 0)), ((1.0, 1.7, 0), (0, 0.1, 0, 0)), ((0.0, 0.7, 0), (0, 0.1 + 0.2, 0, 0)),
+                  ((0.1, 0.7, 0), (0.2, 0, 0, 0)), ((1.2, 1.7, 0), (0, 0.1, 0.0, 0))):
+        ops.append(('at',) + q + lw)
+    yield ops + [('move_to', 'a', 0.1 + 0.2, 0.7, 0), ('at', 0.0, 0.7, 0, 0, 0.3, 0, 0), ('at', 0.0, 0.7, 0, 0.1 + 0.2, 0, 0, 0)]
+
+
 def random_spatial(rng, prop):
     kind = rng.choice(['space', 'space', 'discrete', 'line', 'grid'])
     fl = kind == 'space'
@@ -724,6 +764,7 @@ def histories(seed, budget, prop='C04'):
     rng = random.Random(seed)
     if prop in ('C08', 'C12'):
         yield from spatial_histories(prop)
+        yield from numeric_spatial_histories()
         for _ in range(budget):
             yield random_spatial(rng, prop)
         return
